@@ -15,7 +15,7 @@ EXPLANATION = ('R-PAIRCALL: every method that appends a section (subpath_array.a
                'element_center and spine. R-UNIT: the OASIS PATH half-width is 0.5 x interpolated width x width_scale, the GDSII '
                'WIDTH the full width. R-EXHAUST: SubPathType in eval/gradient, InterpolationType in interp, EndType in the writers. '
                'R-CONSUME: operand consumption of RobustPath::commands. Outline accuracy and intersection convergence are not decided.')
-ADVISORY = [('R-CLONE', r'^RobustPath query prologue'), ('R-SHAPE', r'^RobustPath query prologue/clamp')]
+ADVISORY = [('R-CLONE', r'^RobustPath query prologue'), ('R-SHAPE', r'^RobustPath query prologue/clamp'), ('R-CLONE', r'^RobustPath samplers/')]
 ASSUMPTIONS = ['SubPath::eval/gradient numerics are not analysed', 'RobustPath transforms are covered by C10']
 XREF_FILES = ['src/robustpath.cpp']
 
@@ -209,9 +209,54 @@ def check_clones(ctx, db):
     # sampler end clamp: `if (u + du > u1) du = u1 - u` dominates the evaluation of `next` (last vertex is the section end)
     for side in ('spine', 'center', 'left', 'right'):
         f = db.fn('gdstk::RobustPath::%s_points' % side)
-        t = norm(clone.canon(f.body, f, ren=clone.Renamer(f, params_by_name=True)))
-        ok = re.search(r'if \(\(\(v(\d+) \+ v(\d+)\) > \$u1\)\)\n\s+\(v\2 = \(\$u1 - v\1\)\)\n\s+Vec2 v\d+ = this->\w+_position\(.*\(v\1 \+ v\2\)\)', t) is not None
-        ctx.check(ok, 'R-SHAPE', 'RobustPath::%s_points/end-clamp' % side, f.loc(), 'the step is clamped to the section end before the next vertex is evaluated (the last vertex is the end point)')
+        # by structure, not spelling: an `if ((u + du) > u1) du = u1 - u;` (either operand order, either comparison direction) whose
+        # position precedes the first evaluation of the side's position at `u + du`
+        u1p = next((p_ for p_ in f.params if p_['n'] == 'u1'), None)
+        ok = False
+        why = 'no clamp of the step to the section end found before the next vertex is evaluated'
+        evals = [c for c in f.walk() if c.k == 'CXXMemberCallExpr' and (c.callee or '').endswith('%s_position' % side)]
+        for i_ in f.walk():
+            if i_.k != 'IfStmt' or u1p is None:
+                continue
+            c_ = _strip_casts(i_.child('cond'))
+            if c_ is None or c_.k != 'BinaryOperator' or c_.op not in ('<', '>', '<=', '>='):
+                continue
+            big, small = (c_.child('lhs'), c_.child('rhs')) if c_.op in ('>', '>=') else (c_.child('rhs'), c_.child('lhs'))
+            big, small = _strip_casts(big), _strip_casts(small)
+            if not (small.k == 'DeclRefExpr' and small.dk == 'param' and small.d == u1p['d'] and big.k == 'BinaryOperator' and big.op == '+'):
+                continue
+            a_, b_ = _strip_casts(big.child('lhs')), _strip_casts(big.child('rhs'))
+            if a_.k != 'DeclRefExpr' or b_.k != 'DeclRefExpr':
+                continue
+            for x in i_.child('then').walk():
+                if is_assign(x) and x.op == '=':
+                    l_ = _strip_casts(x.child('lhs'))
+                    r_ = _strip_casts(x.child('rhs'))
+                    if l_.k == 'DeclRefExpr' and l_.d in (a_.d, b_.d) and r_.k == 'BinaryOperator' and r_.op == '-' and _strip_casts(r_.child('lhs')).k == 'DeclRefExpr' and _strip_casts(r_.child('lhs')).d == u1p['d'] \
+                            and _strip_casts(r_.child('rhs')).k == 'DeclRefExpr' and _strip_casts(r_.child('rhs')).d == (b_.d if l_.d == a_.d else a_.d):
+                        step_d, pos_d = l_.d, (b_.d if l_.d == a_.d else a_.d)
+                        # the evaluation of `next`: a position call at (pos + step) after the clamp, and none at (pos + step) before it in the same loop body
+                        def at_sum(call):
+                            return any(y.k == 'BinaryOperator' and y.op == '+' and {getattr(_strip_casts(y.child('lhs')), 'd', None), getattr(_strip_casts(y.child('rhs')), 'd', None)} == {step_d, pos_d}
+                                       and _strip_casts(y.child('lhs')).k == 'DeclRefExpr' and _strip_casts(y.child('rhs')).k == 'DeclRefExpr' for a in call.args for y in [_strip_casts(a)])
+                        L_ = next((a for a in i_.ancestors() if a.k in ('ForStmt', 'WhileStmt', 'DoStmt')), None)
+                        nexts = [c for c in evals if at_sum(c) and L_ is not None and any(a is L_ for a in c.ancestors())]
+                        if nexts and all(c.pos > i_.pos for c in nexts):
+                            ok = True
+                        else:
+                            why = 'the vertex at u + du is evaluated before the step is clamped to the section end'
+        ctx.check(ok, 'R-SHAPE', 'RobustPath::%s_points/end-clamp' % side, f.loc(), 'the step is clamped to the section end before the next vertex is evaluated (the last vertex is the end point)', why)
+        # refinement: the step is halved while the estimated error exceeds the squared tolerance, and the error is estimated at the
+        # midpoint and at one third of the step
+        halves = [x for x in f.walk() if x.k == 'CompoundAssignOperator' and x.op == '*=' and _strip_casts(x.child('rhs')).fv == 0.5]
+        thirds = [c for c in evals if any(y.k == 'BinaryOperator' and y.op == '/' and _strip_casts(y.child('rhs')).cv == 3 for a in c.args for y in a.walk())]
+        tests = [x for x in f.walk() if x.k == 'BinaryOperator' and x.op in ('<', '>', '<=', '>=') and 'tolerance_sq' in norm(x.text()) and 'err' in norm(x.text())]
+        # ... and it is re-estimated at both points after every halving (inside the loop that halves)
+        def inner_loop(n_):
+            return next((a for a in n_.ancestors() if a.k in ('ForStmt', 'WhileStmt', 'DoStmt')), None)
+        again = bool(halves) and all(any(inner_loop(c) is inner_loop(h) or any(a is inner_loop(h) for a in c.ancestors()) for c in thirds) for h in halves)
+        ctx.check(bool(halves) and bool(thirds) and again and len(tests) >= 2, 'R-SHAPE', 'RobustPath::%s_points/refinement' % side, f.loc(), 'the step is halved under an error test against the squared tolerance; the error is taken at the midpoint and at one third of the step',
+                  'halvings %d, third-point evaluations %d, tolerance tests %d' % (len(halves), len(thirds), len(tests)))
     mem = []
     for q in ('position', 'gradient', 'width', 'offset'):
         f = db.fn('gdstk::RobustPath::' + q)
@@ -672,6 +717,8 @@ def run(ctx):
     ctx.require('R-CONSUME arms', n, 10)
     ctx.extra['command_table'] = table
     ctx.attempt(check_dimensions, ctx, db)
+    from . import C02   # a simple robust path saved as an OASIS PATH: the extension scheme announces exactly the extensions that follow
+    ctx.attempt(C02.check_path_extensions, ctx, db)
 
 
 MANIFEST = dict(
